@@ -196,6 +196,14 @@ func c18(c *ev.Ctx) {
 		b.WriteString("function arr24() { [1,2,3,4,5,6,7,8,9,10,11,12,13,14,15,16,17,18,19,20,21,22,23,24] } return 1;")
 		bs = append(bs, bcase{"function-last-byte-24", b.String()})
 	}
+	bs = append(bs,
+		bcase{"nested-function-definition-last", "function outer() { function inner() { return 1; } } outer(); return inner();"},
+		bcase{"nested-function-definition-first", "function outer(a) { function inner(b) { return b + 1; } return inner(a); } return outer(1);"},
+		bcase{"nested-function-definition-middle", "function outer(a) { x = a; function inner() { y = 2; } x = x + 1; } outer(1); inner(); return [x, y];"},
+		bcase{"function-defined-in-if", "if (C) { function viaIf() { return 7; } } return viaIf();"},
+		bcase{"function-defined-in-loop-in-function", "function outer() { foreach e in [1, 2] { function perItem(q) { return q * 2; } z = perItem(e); } } outer(); return z;"},
+		bcase{"three-levels-of-definitions", "function l1() { function l2() { function l3() { return 3; } return l3(); } return l2(); } return l1();"},
+		bcase{"definition-after-return-in-function", "function outer() { return 1; function late() { return 2; } } outer(); return late();"})
 	bs = append(bs, bcase{"ternary-last", "true ? 1 : 2;"}, bcase{"ternary-last-in-function", "function f(a) { a ? 1 : 2 } f(1); return 1;"},
 		bcase{"ternary-in-condition", "if (C ? 1 : false) { t(1); } return 2;"}, bcase{"empty-function", "function f() { } f(); return 1;"},
 		bcase{"if-last", "if (C) { x = 1; }"}, bcase{"while-last", "w = 1; while (w) { w--; }"}, bcase{"foreach-last", "foreach e in [1] { t(e); }"},
